@@ -485,14 +485,19 @@ def checkVarDecl (st : CState) (d : VarDecl) : Outcome CState :=
   let st1 := match d.type with
     | some (r, t) => if isTypeAllowed t then st else st.push r (.invalidType t)
     | none => st
-  let st2 := match d.name with
+  -- the origin is checked before the variable is declared (it is not visible in its own origin)
+  let st2 : Outcome CState := match d.origin with
+    | some fn => checkVarOrigin st1 fn d
+    | none => .ok st1
+  match st2 with
+  | .panic s => .panic s
+  | .err e => .err e
+  | .ok st3 =>
+    match d.name with
     | some (r, name) =>
-        if st1.declared.any (fun p => p.1 == name) then st1.push r (.duplicateVariable name)
-        else { st1 with declared := st1.declared ++ [(name, d)], unused := st1.unused ++ [(name, r)] }
-    | none => st1
-  match d.origin with
-  | some fn => checkVarOrigin st2 fn d
-  | none => .ok st2
+        if st3.declared.any (fun p => p.1 == name) then .ok (st3.push r (.duplicateVariable name))
+        else .ok { st3 with declared := st3.declared ++ [(name, d)], unused := st3.unused ++ [(name, r)] }
+    | none => .ok st3
 
 def checkVarDecls (st : CState) : List VarDecl → Outcome CState
   | [] => .ok st
